@@ -82,8 +82,20 @@ def balanced(text):
     return None
 
 
+def strip_line_comment(ln):
+    in_str = False
+    for i, ch in enumerate(ln):
+        if ch == '"':
+            in_str = not in_str
+        elif not in_str and ln[i:i + 2] == '//':
+            return ln[:i]
+    return ln
+
+
 def parse_namespaces(text):
     """{namespace: ({name: (kind, normalised body)}, imports)}; raises ValueError on delimiter imbalance / duplicates"""
+    # `//` comments are not part of the declarations: they run to the end of their line (as a TypeScript compiler reads them)
+    text = '\n'.join(strip_line_comment(ln) for ln in text.split('\n'))
     b = balanced(text)
     if b:
         raise ValueError(b)
@@ -231,6 +243,12 @@ def shapes(tier):
             text = (f"M-x DEFINITIONS AUTOMATIC TAGS ::= BEGIN IMPORTS Other, {nm} FROM M-b Third FROM M-c; A ::= {t.text()} B ::= SEQUENCE {{ o Other, t Third }} END\n"
                     f"M-b DEFINITIONS AUTOMATIC TAGS ::= BEGIN {nm} ::= NULL Other ::= BOOLEAN END\nM-c DEFINITIONS AUTOMATIC TAGS ::= BEGIN Third ::= BOOLEAN END")
             out.append((f"C18 import of {nm} as {use}", text, {'module': 'M-x', 'defs': [('A', t), ('B', Ty('seq', members=[Mem('o', R('Other')), Mem('t', R('Third'))]))]}))
+    # the same definitions with an ASN.1 comment in front of them (it becomes a // line in front of the declaration)
+    twins = []
+    for k_, (sig, text, info) in enumerate(out):
+        if ' T-y ::= ' in text and (sig.startswith('C18 top') or k_ % 5 == 0):
+            twins.append((sig + ' [commented]', text.replace(' T-y ::= ', '\n-- the y type\nT-y ::= ').replace(' R ::= ', ' /* r */ R ::= '), info))
+    out += twins
     return out
 
 
